@@ -86,6 +86,17 @@ func ecdsaCases(c *swCurve, full bool) []ecdsaCase {
 			}
 		}
 	}
+	// crafted by the key holder: message m' = r*d makes the two halves [m'/s]G and [r/s]Q of the
+	// verification equation EQUAL (valid signature, s = 2m'/k); m' = -r*d makes them OPPOSITE (R = O: invalid)
+	{
+		mEq := new(big.Int).Mul(r, d)
+		mEq.Mod(mEq, n)
+		sEq := new(big.Int).Lsh(mEq, 1)
+		sEq.Mul(sEq, new(big.Int).ModInverse(k, n)).Mod(sEq, n)
+		out = append(out, ecdsaCase{"equal-halves(m=r*d,s=2m/k)", Q, mEq, r, sEq})
+		mOp := new(big.Int).Sub(n, mEq)
+		out = append(out, ecdsaCase{"opposite-halves(m=-r*d)", Q, mOp, r, s})
+	}
 	out = append(out, ecdsaCase{"r=r/s=s/key=(0,0)/msg", inf(), m, r, s})
 	out = append(out, ecdsaCase{"r=r/s=s/key=offcurve/msg", c.offCurve(), m, r, s})
 	// a valid signature with x(R) >= n: choose R with n <= x < p, then Q = r^-1 (s R - m G)
